@@ -21,6 +21,9 @@
 (* small abstract arguments, not only for those reachable from leaves.     *)
 (* PushWindow pushes half-/unbounded abstract values with S = a finite     *)
 (* window of the concretisation (soundness only).                          *)
+(* Two configurations are run: "theorem" (all pushes, MaxOps = 1: one      *)
+(* application of every transfer function to every pair of small abstract  *)
+(* arguments) and "compose" (leaves and constants only, MaxOps = 2).       *)
 (***************************************************************************)
 EXTENDS Bounds, TLC
 
@@ -28,7 +31,9 @@ CONSTANTS V,        \* PushAny intervals lie within -V..V
           ModMax,   \* moduli 1..ModMax and "infinity"
           C,        \* constants -C..C
           MaxOps,   \* number of operator applications per run
-          W         \* window for unbounded abstract values
+          W,        \* window for unbounded abstract values
+          VW,       \* finite ends of half-bounded abstract values lie within -VW..VW
+          Pushes    \* subset of {"leaf", "const", "any", "window"}: which push actions are on
 
 VARIABLES stk, nops
 vars == <<stk, nops>>
@@ -42,7 +47,7 @@ SmallAbs ==
      t \in {u \in (-V..V) \X (-V..V) \X (1..ModMax) : u[1] < u[2] /\ (u[2] - u[1]) % u[3] = 0}}
 
 \* abstract values with an infinite bound (any remainder)
-ExtBounds == {Fin(n) : n \in -V..V}
+ExtBounds == {Fin(n) : n \in -VW..VW}
 WindowAbs ==
   {Abs(t[1], t[2], t[3], t[4]) :
      t \in {u \in ({NegInf} \cup ExtBounds) \X ({PosInf} \cup ExtBounds) \X (1..ModMax) \X (0..(ModMax - 1)) :
@@ -53,14 +58,14 @@ BoundEntry(a, S, bk, argS) == [a |-> a, S |-> S, exact |-> TRUE, bk |-> bk, argS
 
 Init == stk = <<>> /\ nops = 0
 
-Push(e) == /\ Len(stk) < 2
+Push(e) == /\ Len(stk) < 2 /\ nops < MaxOps
            /\ stk' = Append(stk, e)
            /\ UNCHANGED nops
 
-PushLeaf == \E t \in LeafTypes : Push(Entry(LeafAbs(t[1], t[2]), LeafRange(t[1], t[2]), TRUE))
-PushConst == \E c \in -C..C : Push(Entry(ConstAbs(c), {c}, TRUE))
-PushAny == \E a \in SmallAbs : Push(Entry(a, Gamma(a), TRUE))
-PushWindow == \E a \in WindowAbs :
+PushLeaf == "leaf" \in Pushes /\ \E t \in LeafTypes : Push(Entry(LeafAbs(t[1], t[2]), LeafRange(t[1], t[2]), TRUE))
+PushConst == "const" \in Pushes /\ \E c \in -C..C : Push(Entry(ConstAbs(c), {c}, TRUE))
+PushAny == "any" \in Pushes /\ \E a \in SmallAbs : Push(Entry(a, Gamma(a), TRUE))
+PushWindow == "window" \in Pushes /\ \E a \in WindowAbs :
                 Push(Entry(a, {v \in -W..W : InGamma(v, a)}, FALSE))
 
 Top2 == <<stk[Len(stk) - 1], stk[Len(stk)]>>
